@@ -201,6 +201,8 @@ impl UnixTerminal {
         // termination signal must not cut the delivery of the epilogue short
         self.signal_delivery.handle().close();
         self.signal_delivery.pending().for_each(drop);
+        #[cfg(feature = "verif-hooks")]
+        self.verif_c17_dispose("signals_off");
 
         // flush currently queued output and submit the epilogue
         self.execute_many([
